@@ -176,6 +176,7 @@ def scenario(prog, nops, stats, mode, rich=False):
         last_beat = {}
         overdue = {}
         taken_over = {}
+        owner_ref = {}  # key -> (registered through a gRPC connection, owned by this node): what the registrations say, not what is stored
         clock = 0
 
         def do_tick(now_t):
@@ -190,7 +191,12 @@ def scenario(prog, nops, stats, mode, rich=False):
             for k, (was_healthy, v) in before.items():
                 age = now_t - v["last_modified_millis"]
                 local = z3.BoolVal(True) if taken_over.get(k) else (rseval.to_bv(v["from_cluster"]) == 0)
-                supervised = z3.simplify(z3.And(rseval.to_bool(v["ephemeral"]), z3.Not(rseval.to_bool(v["from_grpc"])), local))
+                grpc = rseval.to_bool(v["from_grpc"])
+                if k in owner_ref:
+                    # an HTTP-side write to the address of a gRPC-connected instance leaves it gRPC-connected: the reference follows the registrations
+                    grpc = owner_ref[k][0]
+                    local = z3.BoolVal(True) if taken_over.get(k) else owner_ref[k][1]
+                supervised = z3.simplify(z3.And(rseval.to_bool(v["ephemeral"]), z3.Not(grpc), local))
                 if taken_over.get(k) and not z3.is_true(z3.simplify(rseval.to_bv(v["from_cluster"]) == 0)):
                     cover("tick over an instance taken over from another node")
                 nowv = svc["instances"].get(k)
@@ -226,15 +232,32 @@ def scenario(prog, nops, stats, mode, rich=False):
             for k in list(shadow):
                 if skey(k) not in svc["instances"]:
                     shadow.pop(k)
+            for k in list(owner_ref):
+                if k not in svc["instances"]:
+                    owner_ref.pop(k)
             return None
 
         for i in range(nops):
-            ops = ["register", "remove", "mark_invalid", "mark_valid", "refresh"] if mode == "book" else ["register", "tick", "takeover", "probe_failed"]
+            ops = ["register", "remove", "mark_invalid", "mark_valid", "refresh"] if mode == "book" else ["register", "tick", "takeover", "probe_failed", "http_touch"]
             op = pick(it, opv[i], ops) if not (mode == "time" and i == 0) else "register"
             port = (pick(it, portv[i], [1, 2]) if i > 0 else 1) if mode == "book" else 1
             key = skey(port)
+            touch = False
+            if op == "http_touch":
+                # an HTTP-side write (beat, re-registration, console edit) for the address, handled by this node as the service's owner:
+                # NamingActor::update_instance hands it over with from_cluster = 0 and an empty client id
+                if key not in svc["instances"] or key not in owner_ref:
+                    raise rseval.PathAbort()
+                is_owner = z3.simplify(z3.Or(owner_ref[key][0], owner_ref[key][1], z3.BoolVal(bool(taken_over.get(key)))))
+                if not (z3.is_true(is_owner) or it.branch(is_owner)):
+                    raise rseval.PathAbort()
+                op, touch = "register", True
+                cover("HTTP-side write to a registered address")
             if op == "register":
-                if mode == "time":
+                if mode == "time" and touch:
+                    # at the current clock (timer rounds move the clock; this keeps the alphabet's branching small)
+                    t = clock
+                elif mode == "time":
                     # the first step registers at t = 0; later heartbeats arrive at grid times
                     t = pick(it, timev[i], GRID) if i > 0 else 0
                     if t < clock:
@@ -243,6 +266,8 @@ def scenario(prog, nops, stats, mode, rich=False):
                 else:
                     t = 10 * (i + 1)
                 ins = mk_instance(i, port, t, local_owner=bool(taken_over))
+                if touch:
+                    ins = Struct("Instance", dict(ins, ephemeral=True, healthy=True, from_grpc=False, from_cluster=0, client_id=""))
                 # the update tag is only consulted for an address that is already registered
                 has_tag = (it.branch(sy.bool(i, "has_tag")) if key in svc["instances"] else False) if mode == "book" else False
                 tag = NONE
@@ -289,6 +314,15 @@ def scenario(prog, nops, stats, mode, rich=False):
                             return ("violation", "an update of a registered instance: the stored weight is %s, the tag selects %s" % (now["weight"], wantw), log, "update-field")
                     if tg is not None and tg["enabled"] is False:
                         cover("heartbeat over a registered instance")
+                if mode == "time":
+                    ng, nl = rseval.to_bool(ins["from_grpc"]), rseval.to_bv(ins["from_cluster"]) == 0
+                    if existed and key in owner_ref:
+                        keep = z3.And(owner_ref[key][0], rseval.to_bool(ins["ephemeral"]), z3.Not(ng))
+                        owner_ref[key] = (z3.simplify(z3.If(keep, owner_ref[key][0], ng)), z3.simplify(z3.If(keep, owner_ref[key][1], nl)))
+                        if touch and not z3.is_false(z3.simplify(keep)):
+                            cover("HTTP-side write to the address of a gRPC-connected instance")
+                    else:
+                        owner_ref[key] = (z3.simplify(ng), z3.simplify(nl))
                 shadow[port] = now
                 last_beat[port] = t
                 overdue.pop(key, None)
@@ -471,9 +505,10 @@ def run(tier, seed, which="C11"):
                       ["new registration", "foreign removal refused", "heartbeat over a registered instance"]))
     if which == "C13":
         plans.append(("s13_expiry", "time", 4 if tier == "quick" else 5,
-                      "every history of %d steps over {register/heartbeat at t, time_check at t, take-over of the service after a cluster change, failed health probe of a persistent instance} with t on the grid " + str(GRID) + ", health time-out %d, instance time-out %d; instance flags symbolic" % (H_TIMEOUT, O_TIMEOUT),
+                      "every history of %d steps over {register/heartbeat at t, time_check at t, take-over of the service after a cluster change, failed health probe of a persistent instance, HTTP-side write (beat / re-registration / console edit with from_cluster 0 and no client id) to the registered address on the owner node, at the time of the preceding step} with t on the grid " + str(GRID) + ", health time-out %d, instance time-out %d; instance flags symbolic" % (H_TIMEOUT, O_TIMEOUT),
                       ["beating instance survives a tick", "silent instance marked unhealthy", "silent unhealthy instance removed", "takeover of a service",
-                       "tick over an instance taken over from another node", "failed probe of a persistent instance"]))
+                       "tick over an instance taken over from another node", "failed probe of a persistent instance", "HTTP-side write to a registered address",
+                       "HTTP-side write to the address of a gRPC-connected instance"]))
     extra_c13 = None
     if which == "C13":
         from . import c13actor
